@@ -142,7 +142,7 @@ class C16(Prop):
         "the written index is parsed from the output text independently of lasio's data reader",
         "index values are finite, |x| < 1e7",
     ]
-    quick = {"runs": 30000, "wall": 40}
+    quick = {"runs": 70000, "wall": 60}
     thorough = {"runs": 200000, "wall": 900}
 
     # ------------------------------------------------------------------------------------------------------
